@@ -274,7 +274,7 @@ namespace
     // deviation-bounded: all tuples that differ from the default slab in at most 2 | 3 coordinates
     const std::vector<uint64_t> radices = {3 /*model*/, 4 /*dip*/, 3 /*vsub*/, 3 /*vspread*/, 3 /*ridge*/, 3 /*coupling*/, 3 /*taper*/, 2 /*forearc*/, 3 /*min dist*/, 2 /*max dist*/, 2 /*adiabatic*/, 2 /*spline*/, 2 /*curved*/, 3 /*overriding*/};
     std::vector<Slab> v;
-    for (auto &d : deviations(radices, th ? 3 : 2))
+    for (auto &d : deviations(radices, th ? 4 : 2))
       {
         Slab s;
         s.model = static_cast<int>(d[0]);
@@ -353,7 +353,7 @@ int main(int argc, char **argv)
   spec.level = "exploration";
   spec.rule = "suite oceanic: full product of model {half space, plate, constant-age plate} x (top, bottom) temperatures with top <= bottom x max depth x ridge geometry {straight, bent, two segments with transform, spherical} x spreading velocity x "
               "{uniform, varying along the ridge}; every world probed on 16 x 5 surface positions (on the ridge axis, 0.1 m / 100 m / 1 km from it, far from it, on both sides) x 43 depths. suite slabs: every parameter tuple of the mass conserving "
-              "and plate model slab temperatures within 2 | 3 deviations of a default (14 coordinates: model, dip, velocities, ridge distance, coupling depth, taper, forearc cooling, distance range, adiabatic heating, spline, curved slab, overriding plate) "
+              "and plate model slab temperatures within 2 | 4 deviations of a default (14 coordinates: model, dip, velocities, ridge distance, coupling depth, taper, forearc cooling, distance range, adiabatic heating, spline, curved slab, overriding plate) "
               "on a 37 x 57 x 2 probe lattice. suite linear: linear models of all five feature types x range relations x boundary temperatures. non-trivial: some probe strictly between the end members";
   spec.assumptions = {"envelope of slab models: surface temperature <= T <= max(ambient temperature, background adiabat at that depth); the ambient temperature is what the same world answers when the slab has no temperature model (twin world)",
                       "comparisons are written in negated form so that NaN counts as outside the envelope",
@@ -372,7 +372,7 @@ int main(int argc, char **argv)
     s[0].bound = std::to_string(oc.size()) + " oceanic plates";
     s[0].describe = [](uint64_t i) { return describe(oc[i]); };
     s[1].name = "slabs"; s[1].n = sl.size(); s[1].run = [](uint64_t i, Ctx &c) { run_slab(sl[i], i, c); };
-    s[1].bound = std::to_string(sl.size()) + " slab parameter tuples within " + (th ? "3" : "2") + " deviations of the default";
+    s[1].bound = std::to_string(sl.size()) + " slab parameter tuples within " + (th ? "4" : "2") + " deviations of the default";
     s[1].describe = [](uint64_t i) { return describe(sl[i]); };
     s[2].name = "linear"; s[2].n = li.size(); s[2].run = [](uint64_t i, Ctx &c) { run_linear(li[i], i, c); };
     s[2].bound = std::to_string(li.size()) + " linear models";
